@@ -9,6 +9,7 @@ import (
 	"os"
 	"runtime"
 	"strings"
+	"sync/atomic"
 
 	"github.com/dgrr/http2"
 
@@ -440,6 +441,7 @@ func RunC16(p *C16Plan) *RunResult {
 	}
 	inside := 0
 	for _, c := range cuts {
+		atomic.AddInt64(&heartbeat, 1) // one run reads the stream once per cut: progress is per cut, not per run
 		if v := c16Once(p, data, c, res); v != nil {
 			res.Viol = v
 			break
